@@ -1,0 +1,14 @@
+//go:build verif
+
+package op
+
+import "context"
+
+// VerifC06TokenReaders runs the three opaque/JWT access-token readers of the
+// provider (userinfo+introspection, revocation, token exchange) on one token.
+func VerifC06TokenReaders(ctx context.Context, p UserinfoProvider, token string) (ids, subjects [3]string, oks [3]bool) {
+	ids[0], subjects[0], oks[0] = getTokenIDAndSubject(ctx, p, token)
+	ids[1], subjects[1], oks[1] = getTokenIDAndSubjectForRevocation(ctx, p, token)
+	ids[2], subjects[2], _, oks[2] = getTokenIDAndClaims(ctx, p, token)
+	return
+}
